@@ -53,7 +53,7 @@ P('C02', claimed=True, needs_driver=True, level='other',
   level_note='The writer and the reader of whole definitions are bounded only. Trusted: independent SCgf-2 reader.',
   unreached=['acceptance by a real scsynth'])
 
-P('C03', claimed=True, level='other', contracts=['base_utils'], drivers=['vf.drivers.C03'],
+P('C03', claimed=True, level='other', contracts=['base_utils', 'synth_ugen'], drivers=['vf.drivers.C03'],
   level_text=('The wrap-around law of the list helper every expansion rests on (utils.wrap_extend: length n, '
               'element i is lst[i mod len]; utils.extend) is proved for all lists and positions. '
               'The wrap-and-zip law is checked as a run-time contract on the real constructors: every '
